@@ -16,28 +16,30 @@ EXTENDS Integers, Sequences, FiniteSets, TLC
 CONSTANTS Nts,        \* NTS enabled on the client
           MaxArrivals \* crafted datagrams before the genuine response
 
-Srcs     == {"server", "other"}
+Srcs     == {"server", "other"}   \* IP: source address; SCION: source ISD-AS and host
+Dsts     == {"client", "other"}   \* SCION only: destination ISD-AS and host (IP: the kernel delivers nothing else)
+L4s      == {"udp", "scmp"}       \* SCION only
 Lens     == {"ok", "short"}
 Origins  == {"tx", "rx", "stale", "other"}
 TxVsRx   == {"after", "equal", "before"}   \* response transmit time vs the exchange's receive time t1
 NtsKinds == IF Nts THEN {"ok", "absent", "wrongUid", "badTag", "wrongKey", "truncated"} ELSE {"absent"}
 
-Datagram == [src : Srcs, len : Lens, li : 0 .. 3, vn : 1 .. 5, mode : 3 .. 5, stratum : {0, 1, 15, 16},
+Datagram == [src : Srcs, dst : Dsts, l4 : L4s, len : Lens, li : 0 .. 3, vn : 1 .. 5, mode : 3 .. 5, stratum : {0, 1, 15, 16},
              origin : Origins, txrx : TxVsRx, nts : NtsKinds]
 
-Genuine(il) == [src |-> "server", len |-> "ok", li |-> 0, vn |-> 4, mode |-> 4, stratum |-> 1,
+Genuine(il) == [src |-> "server", dst |-> "client", l4 |-> "udp", len |-> "ok", li |-> 0, vn |-> 4, mode |-> 4, stratum |-> 1,
                 origin |-> IF il THEN "rx" ELSE "tx", txrx |-> "after",
                 nts |-> IF Nts THEN "ok" ELSE "absent"]
 
 \* number of fields in which d differs from the genuine response
-Fields == {"src", "len", "li", "vn", "mode", "stratum", "origin", "txrx", "nts"}
+Fields == {"src", "dst", "l4", "len", "li", "vn", "mode", "stratum", "origin", "txrx", "nts"}
 Dist(d, g) == Cardinality({f \in Fields : d[f] # g[f]})
 
 (***************************************************************************)
 (* the statement's acceptance predicate                                    *)
 (***************************************************************************)
 Accept(d, il) ==
-  /\ d.src = "server"
+  /\ d.src = "server" /\ d.dst = "client" /\ d.l4 = "udp"
   /\ d.len = "ok"
   /\ (d.origin = "tx" \/ (il /\ d.origin = "rx"))
   /\ d.mode = 4 /\ d.vn \in {3, 4} /\ d.li # 3
@@ -58,7 +60,7 @@ VARIABLES il,       \* the outstanding request is interleaved
 vars == <<il, queue, retries, state, last, hist>>
 
 RejectR(d) ==
-  \/ d.src # "server"
+  \/ d.src # "server" \/ d.dst # "client" \/ d.l4 # "udp"
   \/ d.len = "short"
   \/ Nts /\ d.nts # "ok"
   \/ ~(il /\ d.origin = "rx") /\ d.origin # "tx"
